@@ -68,3 +68,40 @@ Example C14_ex :
   /\ res_eqb segs_eqb (segment_clip 0 10 3 3 true) (Ok [(0, 3); (3, 6); (6, 9); (9, 10)]) = true.
 Proof. vm_compute. split; reflexivity. Qed.
 Print Assumptions C14_ex.
+
+(* ---- the generator loop as READ FROM THE SOURCE (Gen/Source.v is regenerated from
+   soundevent/operations.py on every run): with the fuel [seg_fuel] it ends by its own break, never
+   raises, passes the Clip constructor's validator, and yields exactly [windows] (bounds up to ==),
+   each with an identifier built from the parent id and the window's own bounds. ---- *)
+From SE Require Gen.Source Gen.SrcSegment.
+From SE Require Import Gen.Prelude.
+
+Theorem C14_src_segment_clip : forall uuid s e dur hop incl,
+  let h := match hop with Some v => v | None => dur end in
+  0 < dur -> 0 < h ->
+  exists l, Source.segment_clip (seg_fuel s e h) uuid s e dur hop incl = Some (Ok l) /\
+            Forall2 (SrcSegment.seg_match uuid) l (windows s e dur h incl).
+Proof. exact SrcSegment.src_segment_clip. Qed.
+Print Assumptions C14_src_segment_clip.
+
+Theorem C14_src_rejects_nonpositive : forall fuel uuid s e dur hop incl,
+  let h := match hop with Some v => v | None => dur end in
+  (dur <= 0 \/ h <= 0) -> Source.segment_clip fuel uuid s e dur hop incl = Some (Err EValue).
+Proof. exact SrcSegment.src_segment_clip_rejects. Qed.
+Print Assumptions C14_src_rejects_nonpositive.
+
+Theorem C14_src_ids_distinct : forall uuid s e dur hop incl l,
+  let h := match hop with Some v => v | None => dur end in
+  0 < h ->
+  Forall2 (SrcSegment.seg_match uuid) l (windows s e dur h incl) ->
+  forall j k a b, (j < k)%nat -> nth_error l j = Some a -> nth_error l k = Some b -> sc_id a <> sc_id b.
+Proof. exact SrcSegment.src_ids_distinct. Qed.
+Print Assumptions C14_src_ids_distinct.
+
+Example C14_src_ex :
+  match Source.segment_clip 20 7 0 10 3 None true with
+  | Some (Ok l) => map (fun c => (sc_start c, sc_end c)) l = [(0 + 0 * 3, 0 + 0 * 3 + 3); (0 + 1 * 3, 0 + 1 * 3 + 3); (0 + 2 * 3, 0 + 2 * 3 + 3); (0 + 3 * 3, 10)]
+  | _ => False
+  end.
+Proof. vm_compute. reflexivity. Qed.
+Print Assumptions C14_src_ex.
